@@ -143,7 +143,7 @@ def run(pid, tier, seed):
     pipeline.design_check(rep, "Config_MC",
                           ["Config_MC_ideal_quick", "Config_MC_asis_quick"] if tier == "quick"
                           else ["Config_MC_ideal_quick", "Config_MC_asis_quick", "Config_MC_ideal_thorough", "Config_MC_asis_thorough"],
-                          timeout=250 if tier == "quick" else 1500,
+                          timeout=250 if tier == "quick" else 900,
                           expect_cex=["Config_Dev_DEmpt", "Config_Dev_DLost"] if pid == "C10" else ["Config_Dev_DDef"])
     rng = random.Random(seed)
     sims = pipeline.generate(rep, "Config_Gen", "Config_Gen_%s.cfg" % pid, 300 if tier == "quick" else 3000, 30, seed)
